@@ -229,6 +229,7 @@ class Agg:
         self.done = {}
         self.reach_calls = collections.Counter()
         self.reach_lines = collections.defaultdict(set)
+        self.reach_exec = collections.defaultdict(set)
         self.counters = collections.Counter()
         self.calllog = []
         self.times = []
@@ -249,6 +250,8 @@ class Agg:
                 self.reach_calls[k] += v
             for k, v in last_summary['reach']['lines'].items():
                 self.reach_lines[k].update(v)
+            for k, v in last_summary['reach'].get('executable', {}).items():
+                self.reach_exec[k].update(v)
             for k, v in last_summary['counters'].items():
                 self.counters[k] += v
             if len(self.calllog) < 12:
@@ -388,6 +391,8 @@ def decide(prop, tier, seed, mod, cases, agg, crashes, timed_out, t0, findings, 
                         'violations': [v['key'] for v in (o or {}).get('v', [])],
                         'metrics': (o or {}).get('m', {})})
     anchored_lines = {k: len(v) for k, v in agg.reach_lines.items() if v}
+    never = {k: sorted(agg.reach_exec[k] - agg.reach_lines.get(k, set())) for k in agg.reach_exec}
+    never = {k: v for k, v in never.items() if v}
     cov = {
         'evaluations': evaluations,
         'distinct_nontrivial': len(sigs),
@@ -400,6 +405,7 @@ def decide(prop, tier, seed, mod, cases, agg, crashes, timed_out, t0, findings, 
         'max_observed': {k: metrics[k] for k in sorted(metrics)},
         'required_reach_calls': reach_req,
         'anchored_functions_distinct_lines_executed': anchored_lines,
+        'anchored_functions_lines_never_executed': never,
         'torchtt_functions_executed': len([k for k, v in agg.reach_calls.items() if v]),
         'boundary_event_samples': agg.calllog[:8],
         'violations_new': [{'key': k, 'occurrences': len(l), 'first': l[0][1][:300]} for k, l in new_viol],
